@@ -414,7 +414,7 @@ Definition rewrap (p : bool) (x : value) : value := if p then VPtr (Some x) else
 
 (* copyTreeNode.  Returns the new contents of the destination slot and the status;
    on SErr the slot holds what had been written before the error. *)
-Fixpoint copy_tree_node (o : options) (n : node) (s d : rv) {struct n} : value * status :=
+Fixpoint copy_tree_node_gen (zs : bool) (o : options) (n : node) (s d : rv) {struct n} : value * status :=
   match n with
   | Node name _ _ leaf kids =>
     (* if srcValue.Kind() == Pointer { if IsNil return nil; Elem() } *)
@@ -456,7 +456,7 @@ Fixpoint copy_tree_node (o : options) (n : node) (s d : rv) {struct n} : value *
           match find_conv o name with
           | None =>
               if negb (ty_eqb (rty s1) (rty d1)) then (rewrap p (rval d1), SErr CType)
-              else if is_zero (rval s1) then (rewrap p (rval d1), SOk)
+              else if zs && is_zero (rval s1) then (rewrap p (rval d1), SOk)
               else if rro s1 then (rewrap p (rval d1), SPanic)      (* Set: value from unexported field *)
               else (rewrap p (rval s1), SOk)
           | Some c =>
@@ -481,7 +481,7 @@ Fixpoint copy_tree_node (o : options) (n : node) (s d : rv) {struct n} : value *
                    if in_ignore o cname then loop rest cur else
                    match r_field s1 si, r_field (with_val d1 cur) di with
                    | COk cs, COk cd =>
-                       let '(x, stt) := copy_tree_node o k cs cd in
+                       let '(x, stt) := copy_tree_node_gen zs o k cs cd in
                        let cur' := set_field cur di x in
                        match stt with
                        | SOk => loop rest cur'
@@ -495,6 +495,13 @@ Fixpoint copy_tree_node (o : options) (n : node) (s d : rv) {struct n} : value *
       end
     end
   end.
+
+(* `zs = true` is the code as it is: `if srcValue.IsZero() { return nil }` (the zero-skip).
+   `zs = false` is the REPAIRED variant without that test (a zero-valued source leaf is
+   copied like any other value); it exists only so that the correspondence check accepts
+   either behaviour for the known finding C20:copy:zero-skip.  All theorems are about
+   `copy_tree_node` = the code as it is. *)
+Definition copy_tree_node := copy_tree_node_gen true.
 
 (* copyDefaultOptions: a fresh options value holding copies of the default ignore set
    (when non-nil) and of the default converter map (allocated on the first entry) *)
@@ -511,15 +518,17 @@ Definition copy_default_options (defaults : options) : options :=
 
 (* ReflectCopier.CopyTo(src *Src, dst *Dst, opts...): src / dst are the two pointers
    (`None` = nil).  Returns the pointer dst afterwards and the status. *)
-Definition reflect_copy_to (c : copier) (st dt : ty) (src dst : option value) (ps : list opt)
+Definition reflect_copy_to_gen (zs : bool) (c : copier) (st dt : ty) (src dst : option value) (ps : list opt)
   : option value * status :=
   let o := apply_opts (copy_default_options (c_defaults c)) ps in
   let s := {| rty := Ptr st; rval := VPtr src; raddr := false; rro := false |} in
   let d := {| rty := Ptr dt; rval := VPtr dst; raddr := false; rro := false |} in
-  match copy_tree_node o (c_root c) s d with
+  match copy_tree_node_gen zs o (c_root c) s d with
   | (VPtr p, stt) => (p, stt)
   | (_, stt) => (dst, stt)
   end.
+
+Definition reflect_copy_to := reflect_copy_to_gen true.
 
 (* ReflectCopier.Copy(src, opts...): dst := new(Dst) *)
 Definition reflect_copy (c : copier) (st dt : ty) (src : option value) (ps : list opt)
@@ -660,16 +669,20 @@ Inductive call :=
 | CallCopyTo (src dst : option value) (ps : list opt)
 | CallPure (src dst : value).         (* CopyTo(&src, &dst) of pure_reflect_copier.go *)
 
-Definition run_call (c : copier) (st dt : ty) (k : call) : option value * status :=
+Definition run_call_gen (zs : bool) (c : copier) (st dt : ty) (k : call) : option value * status :=
   match k with
-  | CallCopy src ps => reflect_copy c st dt src ps
-  | CallCopyTo src dst ps => reflect_copy_to c st dt src dst ps
+  | CallCopy src ps => reflect_copy_to_gen zs c st dt src (Some (zero_value dt)) ps
+  | CallCopyTo src dst ps => reflect_copy_to_gen zs c st dt src dst ps
   | CallPure src dst =>
       match pure_copy_to (Ptr st) (VPtr (Some src)) (Ptr dt) (VPtr (Some dst)) with
       | (VPtr p, stt) => (p, stt)
       | (_, stt) => (None, stt)
       end
   end.
+
+Definition run_call := run_call_gen true.
+(* the repaired variant (no zero-skip), only for the known-finding tolerance of the check *)
+Definition run_call_nozeroskip := run_call_gen false.
 
 (* ---------------------------------------------------------------- boolean equalities
    (used by the vm_compute cross-check of the extraction and by examples) *)
